@@ -15,7 +15,7 @@ ASSUME = [
     "bases: the n=2 universe of C07 (all allocations incl. teams, all edge sets, all priority vectors over {500,700}, leave, daily limit) plus its project-ALAP variants; thorough adds the n=3 slice",
     "intruder: priority 1, effort {1/2, 1, 3} slots, on r1 or r2, declared first / between / last, free or pinned to day 2 10:00; plus special intruders (depending on a base task, task-level ALAP without deadline, milestone, 40 h effort) on one- and two-scenario variants of the unconstrained bases; all scenarios are compared",
     "precondition (checked, else skipped and counted): the project end is not extended in either run",
-    "'wide9' family: bases = the two ten-task projects of mc/props/wide.py with every single toggle, alone and with reversed declaration order (thorough: every subset of <= 2 of the 37 toggles); intruder = priority 1, 30 min or 10 h, on each of r1-r4, declared first, in the middle or last; pairs where a task is unscheduled or ends after the declared 8-week window in either run are skipped and counted",
+    "'wide9' family: bases = the two ten-task projects of mc/props/wide.py with every single toggle, alone and with reversed declaration order (thorough: every subset of <= 2 of the 38 toggles); intruder = priority 1, 30 min or 10 h, on each of r1-r4, declared first, in the middle or last; pairs where a task is unscheduled or ends after the declared 8-week window in either run are skipped and counted",
     "'inhprio' family: leaves with an own priority (500 written out, or 600) one or two levels below a container that hands down 100 / 200 / 450; the added task's priority (300 / 460) lies between the container's and the leaves' - still strictly the lowest among the tasks that do work",
     "'alapext' family (open finding D55): backward-anchored work + a 40 / 60 h lowest-priority task that fits the declared window but triggers the scheduler's window extension; no precondition is applied there",
     "in backward (ALAP) projects intruders that depend on a base task are not generated: there the added task is a successor whose start is its predecessor's deadline, which C04 requires to be honoured",
